@@ -53,11 +53,13 @@ package resample
 //@   loop 1: exitassume len(points) == totalPoints
 
 // Resample gives up early only for a non-positive count (return 1) or when the edge-case handler says
-// the line is degenerate (return 2); everything else goes through the interpolation
+// the line is degenerate (return 2); everything else returns from the interpolation, after one distance
+// per segment has been computed (return 3)
 //@ func Resample(ls, df, totalPoints)
 //@   purefuncs
 //@   return 1: totalPoints <= 0
 //@   return 2: ret
+//@   return 3: len(dists) == len(ls) - 1
 //@   requires df != nil && totalPoints <= 1073741824
 //@   ensures totalPoints <= 0 ==> result == nil
 //@   ensures totalPoints >= 1 && len(ls) <= 1 ==> same(result, ls)
